@@ -342,8 +342,10 @@ Definition eval_arg (sh : shape) (c : cell) : cell :=
 Definition sql_mode (sh : shape) : mode := match sh with ShId => MCol | _ => MExpr end.
 Definition two_args (f : agg) : bool := match f with APercentile _ | ANth _ => true | _ => false end.
 Definition arithmetic (sh : shape) : bool := match sh with ShAdd1 | ShMul2 => true | _ => false end.
-(* what the field's evaluator yields for the rows of a batch.  For a two-argument aggregate with an
-   arithmetic first argument, rsql/ast.go extractAggFieldWithExpression (multi-parameter branch) registers the
-   text "x * 2, 0.5" as the expression; its evaluation fails on every row, so nothing reaches the aggregator. *)
-Definition sql_cells (sh : shape) (f : agg) (cells : list cell) : list cell :=
+(* what the field's evaluator yields for the rows of a batch: the argument expression evaluated per row. *)
+Definition sql_cells (sh : shape) (f : agg) (cells : list cell) : list cell := map (eval_arg sh) cells.
+(* as found on the pinned commit (repaired by the F10b fix, recorded as F22): for a two-argument aggregate with an
+   arithmetic first argument, rsql/ast.go extractAggFieldWithExpression (multi-parameter branch) registered the
+   text "x * 2, 0.5" as the expression; its evaluation failed on every row, so nothing reached the aggregator. *)
+Definition sql_cells_asis (sh : shape) (f : agg) (cells : list cell) : list cell :=
   if two_args f && arithmetic sh then map (fun _ => Missing) cells else map (eval_arg sh) cells.
